@@ -492,6 +492,11 @@ def fam_async(prop, tier):
             if mac == "try_join_async" and tier == "quick" and len(ds) > 2:
                 continue
             out.append(_async_harness(prop, mac, ds))
+    # later steps that BEGIN with an operator that cannot suspend (`~|>`, `~??`) and go on, in the same step, with one that can
+    for starter in ("map", "inspect"):
+        for mac, ds in [("join_async", (2, 2)), ("join_async", (2, 1, 2)), ("try_join_async", (2, 2))] + (
+                [("join_async", (3, 2)), ("join_async", (2, 2, 2)), ("try_join_async", (1, 2, 2))] if tier != "quick" else []):
+            out.append(_async_harness(prop, mac, ds, starter))
     return out
 
 
@@ -517,7 +522,9 @@ def _async_lazy_harnesses(prop):
     return out
 
 
-def _async_harness(prop, mac, ds):
+def _async_harness(prop, mac, ds, starter="then"):
+    """starter: the deferred operator a later step begins with; `then`: `~-> |f| gate-continuation`; `map` / `inspect`:
+    `~|> g` resp. `~?? g` (cannot suspend themselves) followed IN THE SAME STEP by the gate continuation"""
     n = len(ds)
     is_try = mac.startswith("try")
     b = ""
@@ -529,7 +536,13 @@ def _async_harness(prop, mac, ds):
         v0 = "Ok::<u8, u8>(%d)" % K(i, 0) if is_try else "%du8" % K(i, 0)
         t = "gate(p_%d_0, code(K_POLL, %d, 0, 0), %s)" % (i, i, v0)
         for s in range(1, ds[i]):
-            t += " ~-> |f| %s(f, p_%d_%d, code(K_CALL, %d, %d, 0), %d)" % ("then_gate_r" if is_try else "then_gate", i, s, i, s, K(i, s))
+            cont = "|f| %s(f, p_%d_%d, code(K_CALL, %d, %d, 0), %d)" % ("then_gate_r" if is_try else "then_gate", i, s, i, s, K(i, s))
+            if starter == "then":
+                t += " ~-> " + cont
+            elif starter == "map":
+                t += (" ~|> |r: Result<u8, u8>| r -> " if is_try else " ~|> |x: u8| x -> ") + cont
+            else:
+                t += (" ~?? |r: &Result<u8, u8>| { let _ = r; } -> " if is_try else " ~?? |x: &u8| { let _ = x; } -> ") + cont
         brs.append(t)
     prog = "%s! { %s }" % (mac, ", ".join(brs))
     b += "    let fut = %s;\n" % prog
@@ -572,8 +585,8 @@ def _async_harness(prop, mac, ds):
     b += "    kani_cover!(polls == %d);\n" % maxp
     if n >= 2:
         b += "    kani_cover!(p_0_0 == 1 && p_1_0 == 0);\n    kani_cover!(p_0_0 == 0 && p_1_0 == 1);\n"
-    name = "%s_async_%s_%s" % (prop.lower(), mac, pname(ds))
-    return Harness(name, harness_fn(name, b, unwind=(2 + maxp)), prog, note="profile %s, pending count <= 1 per gate (one gate per branch and step)" % (ds,))
+    name = "%s_async_%s_%s%s" % (prop.lower(), mac, pname(ds), "" if starter == "then" else "_" + starter)
+    return Harness(name, harness_fn(name, b, unwind=(2 + maxp)), prog, note="profile %s, pending count <= 1 per gate (one gate per branch and step), later steps start with %s" % (ds, starter))
 
 
 # ======================================================================================
@@ -1071,12 +1084,19 @@ def fam_let(prop, tier):
     for mac in ("join_async", "try_join_async"):
         for ds, mask in [((2, 2), 2), ((1, 2), 1), ((2, 2, 2), 6)]:
             out.append(_let_harness(prop, mac, ds, mask))
+    # a branch reading its own name, in particular while it is the only branch still running
+    for mac in ("join", "try_join", "join_async"):
+        for ds in [(3,), (3, 1), (1, 3), (2, 4, 1)] + ([(4, 2), (1, 4, 2), (3, 3, 1)] if tier != "quick" else []):
+            if mac == "join_async" and (max(ds) > 3 or len(ds) > 2):
+                continue
+            out.append(_let_harness(prop, mac, ds, 2 ** len(ds) - 1, own=True))
     return out
 
 
-def _let_harness(prop, mac, ds, mask):
+def _let_harness(prop, mac, ds, mask, own=False):
     """named branches = bits of mask.  In every step s >= 1 branch j reads, inside a block capture, the name of the
-    nearest named branch i != j (cyclically) and folds the snapshot into its value."""
+    nearest named branch i != j (cyclically) and folds the snapshot into its value.  own=True: a named branch reads
+    ITS OWN name instead (also in steps in which it is the only branch still running)."""
     n = len(ds)
     is_try = mac.startswith("try")
     is_async = mac.endswith("async")
@@ -1099,6 +1119,8 @@ def _let_harness(prop, mac, ds, mask):
         t = ("let %sn%d = " % ("mut " if j % 2 else "", j) if j in named else "") + init
         for s in range(1, ds[j]):
             others = [i for i in named if i != j]
+            if own and j in named:
+                others = [j]
             if others:
                 i = others[(j + s) % len(others)]
                 reads[(j, s)] = i
@@ -1141,7 +1163,7 @@ def _let_harness(prop, mac, ds, mask):
     else:
         b += "    let exp: %s = %s;\n" % (rty, tup("Some(c%d)" % i for i in range(n)))
     b += "    assert!(r == exp, \"C12: a name did not expose its branch's latest step result (or naming changed the result)\");\n"
-    hn = "%s_let_%s_%s_m%d" % (prop.lower(), mac, pname(ds), mask)
+    hn = "%s_let_%s_%s_m%d%s" % (prop.lower(), mac, pname(ds), mask, "_own" if own else "")
     return Harness(hn, harness_fn(hn, b, unwind=(3 if is_async else None)), prog, note="profile %s, named branches mask %s" % (ds, bin(mask)))
 
 
